@@ -581,14 +581,18 @@ func runC02(c *Ctx) {
 
 	// ---------------- R6: named configuration is forwarded ----------------
 	type fwd struct {
-		fnRel, fn                string
+		fnRel, fn                 string
 		dstPkg, dstType, dstField string
-		src                      func(ssa.Value) bool
-		srcDesc                  string
+		src                       func(ssa.Value) bool
+		srcDesc                   string
 	}
 	rows := []fwd{
-		{"gcetcbendorsement", "SevValidate", gcePkg, "SevPolicyOptions", "LaunchVmsas", func(v ssa.Value) bool { return flow.IsFieldLoad(v, gcePkg, "SevValidateOptions", "ExpectedLaunchVmsas") }, "SevValidateOptions.ExpectedLaunchVmsas"},
-		{"gcetcbendorsement", "SevValidate", verifyPkg, "SNPOptions", "ExpectedLaunchVMSAs", func(v ssa.Value) bool { return flow.IsFieldLoad(v, gcePkg, "SevValidateOptions", "ExpectedLaunchVmsas") }, "SevValidateOptions.ExpectedLaunchVmsas"},
+		{"gcetcbendorsement", "SevValidate", gcePkg, "SevPolicyOptions", "LaunchVmsas", func(v ssa.Value) bool {
+			return flow.IsFieldLoad(v, gcePkg, "SevValidateOptions", "ExpectedLaunchVmsas")
+		}, "SevValidateOptions.ExpectedLaunchVmsas"},
+		{"gcetcbendorsement", "SevValidate", verifyPkg, "SNPOptions", "ExpectedLaunchVMSAs", func(v ssa.Value) bool {
+			return flow.IsFieldLoad(v, gcePkg, "SevValidateOptions", "ExpectedLaunchVmsas")
+		}, "SevValidateOptions.ExpectedLaunchVmsas"},
 		{"gcetcbendorsement", "TdxValidate", gcePkg, "TdxPolicyOptions", "RAMGiB", func(v ssa.Value) bool { return flow.IsFieldLoad(v, gcePkg, "TdxValidateOptions", "ExpectedRAMGiB") }, "TdxValidateOptions.ExpectedRAMGiB"},
 	}
 	for _, row := range rows {
